@@ -16,6 +16,7 @@ import (
 	"fmt"
 	"io"
 	"os"
+	"runtime"
 	"strings"
 	"sync"
 	"testing"
@@ -254,6 +255,8 @@ func c20Mutations(u *vfUnit, valid vfPkt) []c20Mut {
 		// well-formed handles longer than the 256 bytes the draft allows (every later request has to carry them)
 		{Type: rfHandle, ID: valid.ID, Handle: strings.Repeat("h", 257)}, {Type: rfHandle, ID: valid.ID, Handle: strings.Repeat("H", 4096)},
 		{Type: rfAttrs, ID: valid.ID, Attrs: vfAttrs{Flags: 0xF, Size: 64 << 20, Perm: 0o100644}}, {Type: rfAttrs, ID: valid.ID, Attrs: vfAttrs{Flags: 0xF, Size: 3 << 30, Perm: 0o100644}},
+		// (sizes of a few hundred packets, where a worker count derived from the size is neither tiny nor absurd)
+		{Type: rfAttrs, ID: valid.ID, Attrs: vfAttrs{Flags: 0xF, Size: 900000, Perm: 0o100644}}, {Type: rfAttrs, ID: valid.ID, Attrs: vfAttrs{Flags: 0xF, Size: 300 * 32768, Perm: 0o100644}},
 		{Type: rfData, ID: valid.ID, Data: []byte("0123456789")}, {Type: rfData, ID: valid.ID, Data: nil},
 		{Type: rfData, ID: valid.ID, Data: make([]byte, 5000)}, {Type: rfData, ID: valid.ID, Data: make([]byte, 200000)},
 		{Type: rfName, ID: valid.ID}, {Type: rfName, ID: valid.ID, Names: []vfName{{Name: "n", Long: "l"}, {Name: "m", Long: "k"}}},
@@ -339,6 +342,7 @@ type c20Obs struct {
 	received int64
 	follow   string
 	leaks    []string
+	maxGo    int // most goroutines seen (sampled whenever the peer receives a request) above the number before the operation
 }
 
 // c20VersionOverride, if set, is the VERSION frame the scripted peer answers INIT with (units run one after the other)
@@ -347,6 +351,7 @@ var c20VersionOverride []byte
 func c20Once(u *vfUnit, op c20Op, target int, mut []byte, rawFrame bool) c20Obs {
 	var obs c20Obs
 	var mu sync.Mutex
+	goBefore := runtime.NumGoroutine()
 	seen := 0
 	readdirCalls := 0
 	muted := false
@@ -355,6 +360,9 @@ func c20Once(u *vfUnit, op c20Op, target int, mut []byte, rawFrame bool) c20Obs 
 		Handler: func(req vfPkt, raw []byte) []byte {
 			mu.Lock()
 			defer mu.Unlock()
+			if g := runtime.NumGoroutine() - goBefore; g > obs.maxGo {
+				obs.maxGo = g
+			}
 			v := c20Valid(req, &readdirCalls)
 			idx := seen
 			seen++
@@ -510,6 +518,11 @@ func c20Run(u *vfUnit) {
 				u.Violation(fmt.Sprintf("alloc:%s:%s:%s", op.name, rfTypeName(valid.Type), mkind), fmt.Sprintf("%s: %d bytes allocated for %d bytes received (bound %d)", where, obs.alloc, obs.received, bound), w)
 			}
 			u.Max("alloc_bytes_per_op", int64(obs.alloc))
+			u.Max("goroutines_per_op", int64(obs.maxGo))
+			if obs.maxGo > 100 {
+				// (the client is configured with 4 requests per file; what a reply claims does not change that)
+				u.Violation(fmt.Sprintf("goroutines:%s:%s:%s", op.name, rfTypeName(valid.Type), mkind), fmt.Sprintf("%s: %d goroutines were running for a client limited to 4 concurrent requests per file", where, obs.maxGo), w)
+			}
 			if obs.follow != "" {
 				u.Violation(fmt.Sprintf("aftermath:%s:%s:%s", op.name, rfTypeName(valid.Type), mkind), where+": "+obs.follow, w)
 			}
